@@ -68,10 +68,13 @@ Cut(ev) ==
      /\ IF same THEN UNCHANGED <<drift, ndrift>>
         ELSE /\ drift' = Keep(drift, ndrift, [i |-> i, run |-> run, what |-> IF ev.ok THEN "chunks" ELSE "chunks-panic", fields |-> {}])
              /\ ndrift' = ndrift + 1
-     \* the sender must not panic on values the API can express
-     /\ IF ev.ok THEN UNCHANGED <<viol, nviol>>
-        ELSE /\ viol' = Keep(viol, nviol, [i |-> i, run |-> run, clauses |-> {"sender-panic"}, w |-> {}, k |-> "cut",
-                                            t |-> T.t, b |-> T.b, n |-> NumParts(T.len), detail |-> ev.panic])
+     \* the sender must not panic on values the API can express, and every data length (0 included)
+     \* must be cut into at least one message: a tick without messages can never be handed out
+     /\ IF ev.ok /\ Len(ev.msgs) > 0 THEN UNCHANGED <<viol, nviol>>
+        ELSE /\ viol' = Keep(viol, nviol, [i |-> i, run |-> run,
+                                            clauses |-> IF ev.ok THEN {"sender-no-messages"} ELSE {"sender-panic"},
+                                            w |-> {}, k |-> "cut", t |-> T.t, b |-> T.b, n |-> NumParts(T.len),
+                                            detail |-> IF ev.ok THEN "" ELSE ev.panic])
              /\ nviol' = nviol + 1
      /\ UNCHANGED <<prev, cur, parts, newest, got, ndone, trs, cons, run, njudged>>
 
